@@ -225,3 +225,19 @@ package blockstore
 //@   call[mmap.Open#0] assert the_file [C07]: arg0 == path
 //@   call[NewReadOnly#0] assert over_that_file_with_no_index_supplied [C07]: ref(arg0) == ref(f) && arg1 == nil && arg2 == opts
 //@   ensures store_over_that_file [C07]: err == nil ==> result0 == ro && rerr == nil
+
+//@ func generateIndex
+//@   call[Seeker.Seek#0] assert rewinds [C07]: arg1 == 0 && arg2 == 0
+//@   call[car.GenerateIndex#0] assert from_the_start_with_the_same_options [C07]: arg1 == opts && pos(arg0) == sbase(arg0)
+
+//@ func readVersion
+//@   call[car.ReadVersion#0] assert same_options [C07]: arg1 == opts
+
+//@ func (*ReadWrite).Index
+//@   ensures def [C07]: ref(result) == ref(b.idx)
+
+//@ func (*ReadOnly).Index
+//@   ensures def [C07]: ref(result) == ref(b.idx)
+
+//@ func (*ReadWrite).Roots
+//@   call[ReadOnly.Roots#0] assert delegates [C07]: true
